@@ -221,6 +221,14 @@ def programs(n_yields):
              fresh=lambda: Invoke(_kw_collect).constants(sep=', ').star(kwargs=(Y, 'opts'))),
         dict(name='shared-invoke-star-c', target=lambda: {'opts': {'lower': 1, 'sep': '|'}}, spec=lambda: _shared_invoke(),
              fresh=lambda: Invoke(_kw_collect).constants(sep=', ').star(kwargs=(Y, 'opts'))),
+        # wildcards over ONE class through two registries that walk it differently (no spec object is shared here: whatever
+        # is remembered about the class must be remembered per registry)
+        dict(name='star-default-registry', target=lambda: {'r': SlotRows(['x', 'y'])}, spec=lambda: chain('r.*'), expect_value=[]),
+        dict(name='star-own-registry', target=lambda: {'r': SlotRows(['x', 'y'])}, spec=lambda: chain('r.*'), entry=_ROWS_GLOMMER.glom,
+             expect_value=['hdr', 'x', 'y']),
+        # ONE Assign(.., missing=factory) object whose factory yields: each call stores ITS value in ITS target
+        dict(name='shared-assign-missing-a', target=lambda: {'v': threading.get_ident()}, spec=lambda: _shared_assign_missing(), fresh=lambda: _mk_assign_missing()),
+        dict(name='shared-assign-missing-b', target=lambda: {'v': 'b', 'x': {}}, spec=lambda: _shared_assign_missing(), fresh=lambda: _mk_assign_missing()),
         # every call raises an exception of ITS OWN class; all these classes share one __name__
         dict(name='same-named-exceptions', target=lambda: {'cls': type('NotFound', (LookupError,) if next(_serial) % 2 else (ValueError,), {})},
              spec=lambda: chain(T) + (lambda t: (_ for _ in ()).throw(t['cls']('nf')),),
@@ -255,8 +263,17 @@ class Rows(list):
     """a list subclass that the private Glommer below iterates with a header line"""
 
 
+class SlotRows:
+    """no __dict__: the default registry knows no way to walk it, the private Glommer below iterates it"""
+    __slots__ = ('items',)
+
+    def __init__(self, items):
+        self.items = items
+
+
 _ROWS_GLOMMER = Glommer()
 _ROWS_GLOMMER.register(Rows, iterate=lambda rows: iter(['hdr'] + list(rows)))
+_ROWS_GLOMMER.register(SlotRows, iterate=lambda rows: iter(['hdr'] + list(rows.items)))
 _SHARED_ITER = []
 _SHARED_INVOKE = []
 
@@ -275,6 +292,24 @@ def _shared_invoke():
     if not _SHARED_INVOKE:
         _SHARED_INVOKE.append(Invoke(_kw_collect).constants(sep=', ').star(kwargs=(Y, 'opts')))
     return _SHARED_INVOKE[0]
+
+
+_SHARED_ASSIGN = []
+
+
+def _yielding_factory():
+    Y(None)
+    return {}
+
+
+def _mk_assign_missing():
+    return (Assign(Path('x', 'y', 'z'), T['v'], missing=_yielding_factory), 'x.y.z', _own_thread_only)
+
+
+def _shared_assign_missing():
+    if not _SHARED_ASSIGN:
+        _SHARED_ASSIGN.append(_mk_assign_missing())
+    return _SHARED_ASSIGN[0]
 
 
 _SHARED_UNIQUE = []
@@ -392,6 +427,13 @@ def enumerated(col, rng, mon, n_threads, n_yields, max_schedules, combos, self_s
     # the degenerate schedule - one call after the other, no overlap - with a spec object that other calls (of this or another
     # program, through this or another registry) have used before: same outcome as with a freshly built equal spec object
     for p in P:
+        if 'expect_value' in p:
+            col.count('known_outcomes_checked')
+            if isolated[p['name']] != ('value', render(p['expect_value'])) or again[p['name']] != isolated[p['name']]:
+                col.violation('C20/call-sees-state-of-calls-through-another-registry:' + p['name'],
+                              'program %s run alone (after the other programs ran alone): %s then %s, expected the value %r'
+                              % (p['name'], short(isolated[p['name']], 200), short(again[p['name']], 200), p['expect_value']), {'program': p['name']})
+                return
         if 'fresh' in p:
             alone = run_program(dict(p, spec=p['fresh']))
             col.count('fresh_object_baselines')
